@@ -47,7 +47,8 @@ META = {
 STATIC = ["C03/LIR.v", "C03/VSL.v", "C03/ArithSpec.v", "C03/WordArith.v", "C03/TypeLemmas.v", "C03/ArithModel.v",
           "C03/TieBase.v", "C03/VSubst.v", "C03/TieModels.v", "C03/LegacyExact.v", "C03/VenomExact.v",
           "C03/ConvSpec.v", "C03/ConvModel.v", "C03/ConvExact.v", "C03/VConvExact.v", "C03/ConvTie.v",
-          "C03/PowExact.v", "C03/PowTie.v", "C03/UnsafeExact.v", "C03/UnsafeTie.v", "C03/ClampExact.v", "C03/ClampTie.v"]
+          "C03/PowExact.v", "C03/PowTie.v", "C03/UnsafeExact.v", "C03/UnsafeTie.v", "C03/ClampExact.v", "C03/ClampTie.v",
+          "C03/LIRMem.v", "C03/VSLMem.v", "C03/BytesConv.v", "C03/BytesConvTie.v"]
 # regenerated templates + the ties + the property theorems about the REAL templates
 LEGACY = ["C03/GenLegacy.v", "C03/TieLegacy.v", "C03/PropsLegacy.v"]
 VENOM = ["C03/GenVenom.v", "C03/TieVenom.v", "C03/PropsVenom.v"]
@@ -58,6 +59,7 @@ POWV = ["C03/GenPowVenom.v", "C03/TiePowVenom.v", "C03/PropsPowVenom.v"]
 UNSL = ["C03/GenUnsafeLegacy.v", "C03/TieUnsafeLegacy.v", "C03/PropsUnsafeLegacy.v"]
 UNSV = ["C03/GenUnsafeVenom.v", "C03/TieUnsafeVenom.v", "C03/PropsUnsafeVenom.v"]
 CLAMP = ["C03/GenClamp.v", "C03/TieClamp.v", "C03/PropsClamp.v"]
+BCONV = ["C03/GenBytesConv.v", "C03/TieBytesConv.v", "C03/PropsBytesConv.v"]
 
 OPSYM = {"AAdd": "+", "ASub": "-", "AMul": "*", "ADiv": "//", "AMod": "%", "AUSub": "-"}
 
@@ -936,6 +938,126 @@ def usub_differential(ctx, fam):
     return n_eval, failing
 
 
+# ------------------------------------------------------------------ (7) bytestring -> word conversion templates
+BCONV_PRELUDE = CONV_PRELUDE + """From Verif Require Import C03.LIRMem C03.VSLMem C03.BytesConv.
+Definition bmem (len dw : Z) (a : Z) : Z := if a =? 256 then len else if a =? 288 then dw else 0.
+Definition bspec_row (T : cty) (P : list (Z * Z)) : list Z :=
+  map (fun p => oc (c_enc_out T (conv_spec (blen_ty (fst p)) T (bval (fst p) (snd p))))) P.
+Definition blev_row (t : mlir) (P : list (Z * Z)) : list Z :=
+  map (fun p => oc (mleval (bmem (fst p) (snd p)) [("b"%string, 256)] t)) P.
+Definition bvev_row (t : mvtemplate) (P : list (Z * Z)) : list Z :=
+  map (fun p => oc (mvrun (bmem (fst p) (snd p)) [("%1"%string, 256)] t)) P.
+"""
+
+
+def bytes_snippet_code(kind, t):
+    """runtime code: store calldata word 0 (length) at 0x100 and word 1 (first data word) at 0x120, then run the exported
+    template on the pointer 0x100 through the REAL back end"""
+    from vyper.codegen.ir_node import IRnode
+    from vyper.compiler.settings import OptimizationLevel, Settings, VenomOptimizationFlags, anchor_settings
+    from vyper.evm.assembler.core import assembly_to_evm
+    if kind == "legacy":
+        from vyper.ir import compile_ir
+        with X.settings_ctx():
+            ir = IRnode.from_list(["seq", ["mstore", 256, ["calldataload", 0]], ["mstore", 288, ["calldataload", 32]],
+                                   ["with", "b", 256, ["seq", ["mstore", 0, t], ["return", 0, 32]]]])
+            asm = compile_ir.compile_to_assembly(ir, OptimizationLevel.NONE)
+            code, _ = assembly_to_evm(asm)
+        return code
+    from vyper.venom import generate_assembly_experimental, run_passes_on
+    from vyper.venom.parser import parse_venom
+    ins, r = t
+    body = "\n".join("  " + str(i).rstrip() for i in ins)
+    text = ("function main {\nmain:\n  %100 = calldataload 0\n  mstore 256, %100\n  %101 = calldataload 32\n  mstore 288, %101\n"
+            f"  %1 = 256\n{body}\n  mstore 0, {r}\n  return 0, 32\n}}\n")
+    with anchor_settings(Settings(optimize=OptimizationLevel.NONE)):
+        vctx = parse_venom(text)
+        run_passes_on(vctx, VenomOptimizationFlags(level=OptimizationLevel.NONE), disable_mem_checks=True)
+        asm = generate_assembly_experimental(vctx, OptimizationLevel.NONE)
+        code, _ = assembly_to_evm(asm)
+    return code
+
+
+def bytes_cases(n, signed_target, rnd):
+    """(len, data word) pairs: every interesting length, data patterns, dirty padding; len = 0 with a dirty word only for
+    unsigned targets (the signed case is the open finding convert-empty-bytes-signed-stale, probed separately)"""
+    out = []
+    for ln in sorted({0, 1, n // 2, n - 1, n} - {-1}):
+        for pat in (0x00, 0xFF, 0x80, 0x7F, None):
+            data = bytes([pat]) * ln if pat is not None else bytes(rnd.randrange(256) for _ in range(ln))
+            for pad in (0x00, 0xEE, 0x7F):
+                if ln == 0 and signed_target and pad >= 0x80:
+                    continue
+                dw = int.from_bytes(data + bytes([pad]) * (32 - ln), "big")
+                out.append((ln, dw))
+    return out
+
+
+def bytes_template_differential(ctx, fam, sample, force=None):
+    rnd = ctx.rng("bconv")
+    chain = Chain("cancun")
+    rows, meta = [], []
+    n_eval = 0
+    for kind in ("legacy", "venom"):
+        for j, (is_str, n, co, ko, t) in enumerate(fam[kind]):
+            if not ((force and (kind, j) in force) or sample is None or rnd.random() < sample):
+                continue
+            signed = (ko[0] == "num" and ko[2])
+            cs = bytes_cases(n, signed, rnd)
+            code = bytes_snippet_code(kind, t)
+            obs = run_code(chain, code, cs)
+            n_eval += len(cs)
+            pl = plist(cs)
+            rows.append({"spec": f"bspec_row {co} {pl}",
+                         "model": (f"blev_row {X.mlir_term(t)} {pl}" if kind == "legacy" else f"bvev_row {X.mvtemplate_term(*t)} {pl}"),
+                         "obs": obs})
+            meta.append((kind, is_str, n, ko, t, cs, obs))
+    res = compare_rows(BCONV_PRELUDE, rows, "c03bconv", shard=60)
+    failing, bad_model = [], []
+    for (kind, is_str, n, ko, t, cs, obs), (sm, mm) in zip(meta, res):
+        for i, e, _ in sm[:1]:
+            failing.append((kind, is_str, n, ko, cs[i], e, obs[i], t))
+        for i, e, _ in mm[:1]:
+            bad_model.append((kind, is_str, n, ko, cs[i], e, obs[i]))
+    ctx.corr["bytes_convert_template_cases"] = n_eval
+    return n_eval, failing, bad_model
+
+
+def mismatching_bconverts():
+    try:
+        out = coqrun.eval_zlists("From Verif Require Import C03.TieModels C03.BytesConvTie C03.GenBytesConv.\n",
+                                 ["bad_idx btie_one 0 legacy_bconverts", "bad_idx vbtie_one 0 venom_bconverts"], "c03badb", timeout=300)
+        return {("legacy", i) for i in out[0]} | {("venom", i) for i in out[1]}
+    except Exception:  # noqa
+        return None
+
+
+def empty_bytes_signed_probe(ctx):
+    """convert(b, intN/decimal) of an EMPTY bytestring must be 0 whatever stale bytes the variable's memory holds."""
+    src = ("@external\ndef f() -> int256:\n    b: Bytes[32] = b\"" + "\\xff" * 32 + "\"\n    b = b\"\"\n"
+           "    return convert(b, int256)\n")
+    hit = False
+    for cfg in quick_glue_configs():
+        try:
+            out = compile_src(src, cfg, formats=("bytecode", "method_identifiers"))
+        except Exception:  # noqa
+            continue
+        chain = Chain(cfg.evm)
+        addr = chain.deploy(bytes.fromhex(out["bytecode"][2:]))
+        sel = int(list(out["method_identifiers"].values())[0], 16).to_bytes(4, "big")
+        got = call_word(chain, addr, sel)
+        if got != 0:
+            hit = True
+            ctx.violation("failing-input", "convert(empty Bytes, int256) depends on stale memory (returns -1 instead of 0)",
+                          {"source": src, "config": cfg.name, "calldata": sel.hex(), "expected": "0x0",
+                           "observed": "revert" if got == -1 else hex(got),
+                           "cause": "_bytes_to_num: sar(8*(32-len), mload(data)) with len == 0 shifts by 256 and returns the sign of "
+                                    "the stale data word; proved: bytes_convert_empty_signed_defect (PropsBytesConv.v)"},
+                          key="convert-empty-bytes-signed-stale")
+            break
+    return hit
+
+
 # ------------------------------------------------------------------ main
 def choose_types(ctx, all_tys):
     if ctx.tier == "thorough":
@@ -1008,6 +1130,13 @@ def generate_and_build(ctx):
         (COQ / "C03" / "GenClamp.v").write_text(text)
     except Exception as e:  # noqa
         gen_err = (gen_err or "") + f" clamp export: {type(e).__name__}: {e}"
+    bfam = None
+    try:
+        text, bl_, bv_ = X.gen_bytes_convert()
+        (COQ / "C03" / "GenBytesConv.v").write_text(text)
+        bfam = {"legacy": bl_, "venom": bv_}
+    except Exception as e:  # noqa
+        gen_err = (gen_err or "") + f" bytes-convert export: {type(e).__name__}: {e}"
     if any(X.CRASHES.get(k) for k in ("legacy", "venom")):
         ctx.extra["convert_generator_crashes"] = {k: v[:10] for k, v in X.CRASHES.items() if v}
     ctx.extra["family_size"] = {"legacy_templates": len(ltempl), "venom_templates": len(vtempl), "numeric_types": 65,
@@ -1026,7 +1155,8 @@ def generate_and_build(ctx):
            "powv": {"ok": False, "file": "C03/GenPowVenom.v", "failed_lemma": None, "out": gen_err or ""},
            "unsl": {"ok": False, "file": "C03/GenUnsafeLegacy.v", "failed_lemma": None, "out": gen_err or ""},
            "unsv": {"ok": False, "file": "C03/GenUnsafeVenom.v", "failed_lemma": None, "out": gen_err or ""},
-           "clamp": {"ok": False, "file": "C03/GenClamp.v", "failed_lemma": None, "out": gen_err or ""}}
+           "clamp": {"ok": False, "file": "C03/GenClamp.v", "failed_lemma": None, "out": gen_err or ""},
+           "bconv": {"ok": False, "file": "C03/GenBytesConv.v", "failed_lemma": None, "out": gen_err or ""}}
     if b0["ok"]:
         ths = []
         if ltempl:
@@ -1047,22 +1177,24 @@ def generate_and_build(ctx):
             ths.append(threading.Thread(target=build_chain, args=(ctx, UNSV, STATIC, res, "unsv")))
         if clampfam:
             ths.append(threading.Thread(target=build_chain, args=(ctx, CLAMP, STATIC, res, "clamp")))
+        if bfam:
+            ths.append(threading.Thread(target=build_chain, args=(ctx, BCONV, STATIC, res, "bconv")))
         for t in ths:
             t.start()
         for t in ths:
             t.join()
     bl, bv, bcl, bcv, bpl, bpv = res["legacy"], res["venom"], res["convl"], res["convv"], res["powl"], res["powv"]
-    bul, buv, bclamp = res["unsl"], res["unsv"], res["clamp"]
+    bul, buv, bclamp, bbconv = res["unsl"], res["unsv"], res["clamp"], res["bconv"]
     ctx.log(f"coq done {time.time()-t0:.0f}s static={b0['ok']} legacy={bl['ok']} venom={bv['ok']} "
             f"convert-legacy={bcl['ok']} convert-venom={bcv['ok']} pow-legacy={bpl['ok']} pow-venom={bpv['ok']} "
-            f"unchecked-legacy={bul['ok']} unchecked-venom={buv['ok']} clamps={bclamp['ok']}")
-    if all(b["ok"] for b in (bl, bv, bcl, bcv, bpl, bpv, bul, buv, bclamp)):
+            f"unchecked-legacy={bul['ok']} unchecked-venom={buv['ok']} clamps={bclamp['ok']} bytes-convert={bbconv['ok']}")
+    if all(b["ok"] for b in (bl, bv, bcl, bcv, bpl, bpv, bul, buv, bclamp, bbconv)):
         ctx.extra["syntactic_matches"] = (len(ltempl) + len(vtempl) + 130 + len(lconv) + len(vconv) + len(lpow) + len(vpow)
                                           + len(luns) + len(vuns))
 
     return dict(gen_err=gen_err, ltempl=ltempl, vtempl=vtempl, lconv=lconv, vconv=vconv, vextra=vextra, lpow=lpow, vpow=vpow,
                 luns=luns, vuns=vuns, clampfam=clampfam, b0=b0, bl=bl, bv=bv, bcl=bcl, bcv=bcv, bpl=bpl, bpv=bpv,
-                bul=bul, buv=buv, bclamp=bclamp)
+                bul=bul, buv=buv, bclamp=bclamp, bfam=bfam, bbconv=bbconv)
 
 
 def prebuild(ctx):
@@ -1110,6 +1242,7 @@ def run(ctx):
     b0, bl, bv, bcl, bcv, bpl, bpv = (g[k] for k in ("b0", "bl", "bv", "bcl", "bcv", "bpl", "bpv"))
     luns, vuns, bul, buv = g["luns"], g["vuns"], g["bul"], g["buv"]
     clampfam, bclamp = g["clampfam"], g["bclamp"]
+    bfam, bbconv = g["bfam"], g["bbconv"]
 
     # ---- correspondence / search
     found = False
@@ -1252,6 +1385,37 @@ def run(ctx):
                           key=f"venom-usub:{tyname(ty)}")
     ctx.log(f"clamp differentials done {time.time()-t0:.0f}s")
 
+    # ---- bytestring -> word conversion templates (memory operand)
+    if bfam and b0["ok"]:
+        if bbconv["ok"]:
+            frac, force = (0.012 if ctx.tier == "quick" else 0.2), None
+        else:
+            force = mismatching_bconverts()
+            ctx.log(f"search bytes-convert: {None if force is None else len(force)} templates differ from the model")
+            frac = 0.1 if force is None else 0.012
+            if force and len(force) > 300:
+                force = set(sorted(force)[::len(force) // 300 + 1])
+        n, failing, bad_model = bytes_template_differential(ctx, bfam, frac, force)
+        total += n
+        for kind, is_str, n_, ko, c, e, g_, node in failing[:5]:
+            found = True
+            tstr = str(node) if kind == "legacy" else "; ".join(str(i).strip() for i in node[0]) + f" -> {node[1]}"
+            ctx.violation(
+                "failing-input", f"{kind} convert template {'String' if is_str else 'Bytes'}[{n_}] -> {c_src_name(ko)} is not exact-or-revert",
+                {"generator": ("vyper.builtins._convert.convert" if kind == "legacy" else "vyper.codegen_venom.builtins.convert.lower_convert")
+                              + f" on a memory bytestring operand, target {c_src_name(ko)}",
+                 "template": " ".join(tstr.split()), "length": c[0], "first_data_word": hex(c[1]),
+                 "expected": "revert" if e == -1 else hex(e), "observed_on_evm": "revert" if g_ == -1 else hex(g_),
+                 "how": "length / data word stored at 0x100 / 0x120, template compiled by the real back end, executed on pyrevm"},
+                key=f"{kind}-bytes-convert:{n_}->{c_src_name(ko)}")
+        for kind, is_str, n_, ko, c, l, g_ in bad_model[:5]:
+            if not found:
+                ctx.violation("correspondence-broken", f"Coq evaluator disagrees with the real back end + EVM on an exported {kind} bytes-convert template",
+                              {"convert": f"Bytes[{n_}] -> {c_src_name(ko)}", "length": c[0], "data": hex(c[1]), "coq": str(l), "evm": str(g_)})
+    if empty_bytes_signed_probe(ctx) and not ctx.is_known("convert-empty-bytes-signed-stale"):
+        found = True
+    ctx.log(f"bytes-convert differentials done {time.time()-t0:.0f}s")
+
     # ---- conversions: template differential (+ Search), glue probes, venom-only pairs
     for kind, templ, b in (("legacy", lconv, bcl), ("venom", vconv, bcv)):
         if not templ or not b0["ok"]:
@@ -1349,7 +1513,7 @@ def run(ctx):
     if gen_err and not found:
         ctx.violation("translator-rejected", "template export failed: " + gen_err, {"error": gen_err})
     for b, what in ((b0, "static"), (bl, "legacy"), (bv, "venom"), (bcl, "convert-legacy"), (bcv, "convert-venom"),
-                    (bpl, "pow-legacy"), (bpv, "pow-venom"), (bul, "unchecked-legacy"), (buv, "unchecked-venom"), (bclamp, "clamps")):
+                    (bpl, "pow-legacy"), (bpv, "pow-venom"), (bul, "unchecked-legacy"), (buv, "unchecked-venom"), (bclamp, "clamps"), (bbconv, "bytes-convert")):
         if not b["ok"] and not found and not (gen_err and what != "static"):
             ctx.violation("theorem-broken", f"{b.get('failed_lemma')} in {b.get('file')} ({what})",
                           {"theorem": b.get("failed_lemma"), "file": b.get("file"), "coq_output": (b.get("out") or "")[-1500:]})
